@@ -48,23 +48,13 @@ pub fn check_value(v: &RVal, rec: &mut Rec) -> Verdict {
         return r;
     }
     // decoding the same text from a reader that hands it out in pieces (a socket, a pipe) is decoding too
-    {
-        use crate::gen::readers::{PlanReader, ReaderPlan};
-        let k = key_of(&text);
-        let plan = ReaderPlan { chunks: vec![1 + (k % 7) as u8, 1 + ((k >> 8) % 61) as u8, 1 + ((k >> 16) % 3) as u8], interrupt_every: ((k >> 24) % 4) as u8, ..ReaderPlan::default() };
-        let r2 = crate::runner::fueled(text.len(), || {
-            let mut rd = PlanReader::new(text.as_bytes(), &plan);
-            libhaystack::encoding::zinc::decode::parser::Parser::make(&mut rd).and_then(|mut p| p.parse_value())
-        });
-        match r2 {
-            Ok(Ok(b2)) => {
-                if let Some(x) = diff(&project(&back), &project(&b2)).diffs.first() {
-                    return Verdict::fail(format!("C01:zinc-rt:reader:diff:{}:{}", x.code, shape(v)), format!("decoded from a reader in pieces {:?}: {} at {}: {} (text {:?})", plan.chunks, x.code, x.path, x.detail, trunc(&text, 200)));
-                }
+    match zinc_decode_in_pieces(&text) {
+        Ok(b2) => {
+            if let Some(x) = diff(&project(&back), &project(&b2)).diffs.first() {
+                return Verdict::fail(format!("C01:zinc-rt:reader:diff:{}:{}", x.code, shape(v)), format!("decoded from a reader in pieces: {} at {}: {} (text {:?})", x.code, x.path, x.detail, trunc(&text, 200)));
             }
-            Ok(Err(e)) => return Verdict::fail(format!("C01:zinc-rt:reader:decode-error:{}", shape(v)), format!("the text decodes from a string but not from a reader that delivers it in pieces {:?}: {e} (text {:?})", plan.chunks, trunc(&text, 200))),
-            Err(p) => return Verdict::fail(format!("C01:zinc-rt:reader:{}:{}", crate::runner::panic_sig(&p), shape(v)), p.msg),
         }
+        Err(f) => return prefix_sig("C01:zinc-rt", f, &shape(v)),
     }
     // 2. the same value embedded as a list element (exercises `<< >>` for grids)
     let wrapped = RVal::List(vec![v.clone()]);
